@@ -63,9 +63,10 @@ def run(argv):
     ap.add_argument("--tier", default="quick")
     ap.add_argument("--jobs", type=int, default=8)
     ap.add_argument("--own-only", action="store_true")
+    ap.add_argument("--checks", nargs="*", help="restrict to these checks (e.g. after changing their oracles)")
     a = ap.parse_args(argv)
     names = a.names or sorted(n for n in os.listdir(KEEP) if os.path.isdir(os.path.join(KEEP, n)))
-    allp = [f"C{i:02d}" for i in range(1, 21)]
+    allp = [c.upper() for c in a.checks] if a.checks else [f"C{i:02d}" for i in range(1, 21)]
     from concurrent.futures import ThreadPoolExecutor
 
     def one(job):
